@@ -222,8 +222,23 @@ def rule_data_weight_once(F, ev, R, config, rule="R-DATA-WEIGHT-ONCE"):
     R.add(rule, config, b.key, "weights-role=builder-weights", ok,
           "" if ok else "the problem's weights `%s` are not the weights used on the data" % short(f[pr["weights"]])[:160], b.j["span"])
     e = f[pr["eps"]]
+    def is_machine_eps_fn(fr):
+        """`Float::epsilon` itself, or a local function without arguments that returns exactly `Float::epsilon()`"""
+        if fr[0] != "fnref":
+            return False
+        if fr[1].endswith("Float::epsilon"):
+            return True
+        for k_ in ([fr[2]] if len(fr) > 2 and isinstance(fr[2], str) else []) + [fr[1]]:
+            hb = F.bodies.get(k_) or next((x for x in F.bodies.values() if x.kind != "Closure" and strip_generics(x.j.get("path", "")) == fr[1]), None)
+            if hb is not None and not hb.j.get("inputs"):
+                try:
+                    rv_ = ev.ret_val(Env(hb))
+                except RecursionError:
+                    return False
+                return rv_[0] == "call" and rv_[1].endswith("Float::epsilon") and not rv_[3]
+        return False
     ok = (e[0] == "call" and e[1].endswith("Option::unwrap_or_else") and e[3][0] == ("field", me, br["eps"])
-          and e[3][1][0] == "fnref" and e[3][1][1].endswith("Float::epsilon"))
+          and is_machine_eps_fn(e[3][1]))
     ok = ok or (e[0] == "call" and e[1].endswith("Option::unwrap_or") and e[3][0] == ("field", me, br["eps"])
                 and e[3][1][0] == "call" and e[3][1][1].endswith("Float::epsilon"))
     if not ok and e[0] == "phi" and len(e[1]) == 2:
